@@ -30,7 +30,7 @@ def parse_key(k):
 
 def run(rep, tier, seed):
     from algopy import exact_interpolation as ei
-    maxn, maxd, maxcard = (3, 4, 40) if tier == "quick" else (5, 5, 130)
+    maxn, maxd, maxcard = (4, 5, 40) if tier == "quick" else (5, 6, 130)
     res = tlc_ok(run_tlc("MC_Interp", CFG % (maxn, maxd, maxcard, "TRUE"), workers=16, timeout=3000), "MC_Interp")
     rep.add_tlc(res, "MC_Interp")
     if not res.records:
@@ -69,6 +69,18 @@ def run(rep, tier, seed):
         rep.replayed(len(real_idx))
         rep.sample({"N": N, "d": d, "i": real_idx[min(1, len(real_idx) - 1)],
                     "spec_row": {str(k): str(v) for k, v in spec[real_idx[min(1, len(real_idx) - 1)]].items()}})
+    # call histories: the result for (N, d) must not depend on earlier calls with another seed matrix S; rays = J . S
+    for (N, d) in [k for k in sorted(rows) if k[0] >= 2][:6]:
+        G0, r0 = ei.generate_Gamma_and_rays(N, d)
+        Sm = numpy.eye(N) + numpy.tri(N, k=-1) * 2 - numpy.tri(N, k=-1).T
+        G1, r1 = ei.generate_Gamma_and_rays(N, d, S=Sm)
+        J = ei.generate_multi_indices(N, d)
+        rep.case((N, d, "history"), nontrivial=True)
+        if not numpy.array_equal(r1, J @ Sm):
+            rep.violation("rays with a seed matrix N=%d,d=%d" % (N, d), {"got": r1.tolist(), "expected": (J @ Sm).tolist()})
+        G2, r2 = ei.generate_Gamma_and_rays(N, d)
+        if not (numpy.array_equal(G2, G0) and numpy.array_equal(r2, r0)):
+            rep.violation("result depends on an earlier call with another seed matrix N=%d,d=%d" % (N, d), {})
     # binding self-test: a corrupted expectation must be noticed
     (N, d), spec = sorted(rows.items())[-1]
     Gamma, _ = ei.generate_Gamma_and_rays(N, d)
